@@ -32,6 +32,9 @@ type c08case struct {
 	Deps    [3][]string `json:"deleteWith"` // of a, b, c
 	Dels    []string    `json:"deletions"`
 	Order   int         `json:"map_order"`
+	// Fault > 0: the (Fault-1)-th mutating storage call of the first deletion fails;
+	// a failed deletion is retried once without faults
+	Fault int `json:"fault,omitempty"`
 }
 
 var c08Targets = []string{"a", "b", "c", "zz"}
@@ -87,7 +90,8 @@ func c08Run1(w *lib.Worker, c c08case, report bool) []lib.Violation {
 	clk := lib.Clock()
 	ctx := lib.Ctx()
 	store := lib.MemStore(ctx)
-	loc := lib.MustLoc(ctx, c.Kind, "L", store)
+	rec := lib.NewRecStore(store)
+	loc := lib.MustLoc(ctx, c.Kind, "L", rec)
 	if c.Order > 0 {
 		vmem.SetChooser(func(n int) int { return c.Order % vmem.Fact(n) })
 		defer vmem.SetChooser(nil)
@@ -179,7 +183,18 @@ func c08Run1(w *lib.Worker, c c08case, report bool) []lib.Violation {
 			how = "RemRule"
 			_, err = loc.RemRule(ctx, id)
 		default:
+			if c.Fault > 0 && di == 0 {
+				rec.FailAt = rec.Mutations() + c.Fault - 1
+			}
 			_, err = loc.RemFact(ctx, id)
+			rec.FailAt = -1
+			if c.Fault > 0 && di == 0 && err != nil {
+				// the cascade was interrupted by the storage; the caller retries
+				how = "RemFact interrupted by a storage fault, then retried RemFact"
+				if _, err = loc.RemFact(ctx, id); err != nil {
+					return vs // the retry is refused (nothing left under the id): not judged
+				}
+			}
 		}
 		w.AddTrans(1)
 		if err != nil {
@@ -217,6 +232,23 @@ func c08Run1(w *lib.Worker, c c08case, report bool) []lib.Violation {
 		}{{"GetFact", got}, {"storage", gotStore}, {"SearchFacts", gotSearch}} {
 			if strings.Join(o.got, ",") != strings.Join(want, ",") {
 				missing, extra := diffSets(want, o.got)
+				if c.Fault > 0 && di == 0 && len(missing) == 0 {
+					// after an interrupted cascade and an acknowledged retry, what is judged
+					// is what the property states about the retried deletion itself: nothing
+					// that names the deleted id may survive.  A deeper dependent whose own
+					// target already went in the interrupted pass is not judged here.
+					direct := false
+					for _, n := range extra {
+						for _, t := range edges[n] {
+							if t == id {
+								direct = true
+							}
+						}
+					}
+					if !direct {
+						continue
+					}
+				}
 				kind := "too-much-deleted"
 				if len(extra) > 0 && len(missing) == 0 {
 					kind = "dependent-survives"
@@ -277,13 +309,19 @@ func c08Run(w *lib.Worker) {
 				}
 				for _, dels := range delSeqs {
 					for ord := 0; ord < orders; ord++ {
-						c := c08case{Kind: kind, Variant: variant, Deps: deps, Dels: dels, Order: ord}
-						w.Journal(lib.Canon(c))
-						vs := c08Run1(w, c, true)
-						w.Eval(1)
-						w.AddTraces(1)
-						for _, v := range vs {
-							w.Violation(v)
+						faults := 1
+						if variant == "facts" && len(dels) == 1 && ord == 0 {
+							faults = 4 // no fault, or the 1st/2nd/3rd storage call of the deletion fails
+						}
+						for fault := 0; fault < faults; fault++ {
+							c := c08case{Kind: kind, Variant: variant, Deps: deps, Dels: dels, Order: ord, Fault: fault}
+							w.Journal(lib.Canon(c))
+							vs := c08Run1(w, c, true)
+							w.Eval(1)
+							w.AddTraces(1)
+							for _, v := range vs {
+								w.Violation(v)
+							}
 						}
 					}
 				}
